@@ -741,6 +741,16 @@ def k13_add_form(core, rep):
     solv = [n for n in muts if any(isinstance(x, ast.AugAssign) and self_attr(x.target) == s.solving for x in ast.walk(n.ast))]
     ok = len(solv) == 1 and 'required_fields()' in unparse(solv[0].ast) and '.name()' in unparse(solv[0].ast)
     rep.ob('K13', 'marks-exactly-the-required-lines', ok, 'the set of lines being solved is not updated with the names of the required lines', _w(f))
+    # a full load always schedules: the only condition the scheduling statements stand under is "not input-only" (a guard such as
+    # "first time this form is seen" counts the input-only load as a first time, and the required lines of a form that was first
+    # touched through one of its inputs are then never demanded)
+    for n_ in [x for x in muts if any(call_name(c) == '_add_unattempted' for c in calls_in(x.ast))] + solv:
+        split_nodes = [x for x in g.nodes if x.kind == 'test' and io in unparse(x.ast)]
+        common = set(g.branch_facts(split_nodes[0])) if split_nodes else set()
+        others = [(t_, pol) for (t_, pol) in g.branch_facts(n_) if io not in t_ and (t_, pol) not in common]
+        rep.ob('K13', f'scheduling-depends-on-input_only-alone@{unparse(n_.ast, 40)}', not others,
+               f'_add_form() schedules the required lines only under a further condition ({others[:2]}): a form whose inputs were loaded first (input-only) and whose lines are referred to later '
+               'may never get its required lines queued - they are missing from a return that reports success', _w(f, n_.ast))
     reg = [n for n in g.nodes if n.kind == 'iter' and isinstance(n.ast, ast.Call) and call_name(n.ast) == 'fields']
     rep.ob('K13', 'registers-all-lines', len(reg) == 1, '_add_form() does not register every line (required and optional) of the form in the line map', _w(f))
     # handler: adds the named form fully, not input-only
